@@ -141,6 +141,7 @@ func cmdCheck(args []string) int {
 	only := fs.String("only", "", "run only this harness (development)")
 	workers := fs.Int("workers", 16, "parallel workers")
 	trace := fs.Bool("trace", false, "print every path")
+	cross := fs.Int("cross", 40, "re-decide every n-th incremental unsat answer one-shot with z3 5.1.0 (0 = off)")
 	noReplay := fs.Bool("noreplay", false, "skip native replay (development)")
 	solver := fs.String("solver", "z3", "z3|z3-new|cvc5")
 	noEvidence := fs.Bool("noevidence", false, "do not write evidence")
@@ -211,7 +212,7 @@ func cmdCheck(args []string) int {
 			return 2
 		}
 		x := &engine.Explorer{P: P, Harness: h.Name, Fn: fn, Workers: *workers, SolverCmd: *solver,
-			Merge: map[string]bool{}, OpenKnown: open, Params: map[string]int{}, NoIfConv: h.NoIfConv, Trace: *trace}
+			Merge: map[string]bool{}, OpenKnown: open, Params: map[string]int{}, NoIfConv: h.NoIfConv, Trace: *trace, CrossEvery: *cross}
 		for k, v := range tc.Params {
 			x.Params[k] = v
 		}
@@ -242,9 +243,9 @@ func cmdCheck(args []string) int {
 		}
 		rep := x.Run()
 		reports = append(reports, rep)
-		fmt.Printf("harness %-28s paths=%d completed=%d obligations=%d discharged=%d trivial=%d unknown=%d feasq=%d ifconv=%d solver=%.1fs oneshots=%d%v wall=%.1fs statuses=%v\n",
+		fmt.Printf("harness %-28s paths=%d completed=%d obligations=%d discharged=%d trivial=%d unknown=%d feasq=%d ifconv=%d solver=%.1fs oneshots=%d%v cross=%d/%d/%d wall=%.1fs statuses=%v\n",
 			h.Name, rep.Paths, rep.Completed, rep.Obl, rep.Discharged, rep.Trivial, rep.Unknown, rep.FeasQ, rep.IfConverted,
-			rep.SolverTime.Seconds(), rep.OneShots, rep.Winners, rep.Wall.Seconds(), rep.Statuses)
+			rep.SolverTime.Seconds(), rep.OneShots, rep.Winners, rep.CrossAgreed, rep.CrossDisagreed, rep.CrossUndecided, rep.Wall.Seconds(), rep.Statuses)
 		if os.Getenv("GOSYM_TIMING") != "" {
 			fmt.Println("  timing:", x.Timing())
 		}
